@@ -540,7 +540,15 @@ type cookieCase struct {
 	SameSiteFirst            bool // call SetSameSite before SetSecure
 }
 
-const skipCookie = "SKIP: path decodes to a ';'"
+// inD93: known finding D93. Cookie.SetPath percent-decodes the path it is given and the cookie is written with
+// the decoded bytes: a path whose ';' or trailing/leading space was correctly escaped ("/a%3Bb", "/my%20file%20")
+// is written raw, so the ';' ends the path (what follows is read as attributes) and the space is trimmed.
+func inD93(cc *cookieCase) bool {
+	var c protocol.Cookie
+	c.SetPath(cc.Path)
+	held := string(c.Path())
+	return held != cc.Path && (strings.Contains(held, ";") || strings.TrimSpace(held) != held)
+}
 
 func checkCookie(cc *cookieCase) string {
 	var c protocol.Cookie
@@ -568,12 +576,6 @@ func checkCookie(cc *cookieCase) string {
 		c.SetSameSite(protocol.CookieSameSite(cc.SameSite))
 	}
 	c.SetPartitioned(cc.Part)
-	if bytes.IndexByte(c.Path(), ';') >= 0 {
-		// SetPath percent-decodes: "/%3b" is held as "/;". A ';' cannot be carried by a Set-Cookie
-		// attribute (RFC 6265 path-value excludes it and there is no escape), exactly like a ';' given
-		// directly, which the generators never produce: outside the domain, counted as excluded.
-		return skipCookie
-	}
 	s := append([]byte(nil), c.Cookie()...)
 	var p protocol.Cookie
 	if err := p.ParseBytes(s); err != nil {
@@ -678,6 +680,10 @@ func TestC17CookieRandom(t *testing.T) {
 		}
 		if rapid.Bool().Draw(t, "path") {
 			cc.Path = "/" + gen(valueChars, "path", 0, 20)
+			if rapid.IntRange(0, 5).Draw(t, "escapedSeparator") == 0 {
+				// a ';' or an outer space, correctly escaped by the application (a cookie scoped to the request path)
+				cc.Path += rapid.SampledFrom([]string{"%3B", "%3b%20HttpOnly", "%3B%20Domain=evil.test", "%20", "/my%20file%20"}).Draw(t, "escapedSep") + gen(valueChars, "pathTail2", 0, 3)
+			}
 			if rapid.IntRange(0, 3).Draw(t, "doubleEncoded") == 0 {
 				cc.Path += rapid.SampledFrom([]string{"%2541", "%2520", "%252f", "%25", "%2525"}).Draw(t, "escapedPercent") + gen(valueChars, "pathTail", 0, 4)
 			}
@@ -695,8 +701,8 @@ func TestC17CookieRandom(t *testing.T) {
 		cc.SameSiteFirst = rapid.Bool().Draw(t, "sameSiteFirst")
 		rec.Case(cc.MaxAge != 0 || cc.Expire != 0 || cc.SameSite != 0, ev.HashString(fmt.Sprintf("%+v", *cc)), "cookie")
 		msg := checkCookie(cc)
-		if msg == skipCookie {
-			rec.Excluded("cookie-path-that-percent-decodes-to-a-semicolon", 1)
+		if msg != "" && inD93(cc) && ev.ReportKnown(prop, "D93") {
+			rec.Excluded("D93-cookie-path-with-an-escaped-semicolon-or-outer-space", 1)
 			return
 		}
 		if msg != "" {
@@ -745,6 +751,8 @@ func runURIProgram(p *uriProgram) string {
 			u.SetHash(o.A)
 		case "set-host":
 			u.SetHost(o.A)
+		case "update":
+			u.Update(o.A)
 		case "copy":
 			c := &protocol.URI{}
 			u.CopyTo(c)
@@ -756,7 +764,9 @@ func runURIProgram(p *uriProgram) string {
 	wantArgs := listOf(view.QueryArgs())
 	wantHost, wantHash := string(u.Host()), string(u.Hash())
 	wantPath := string(u.Path())
-	if p.NoNorm {
+	// (Update re-parses the URI, which switches the option off again: the URI's own flag says what it holds)
+	noNorm := u.DisablePathNormalizing
+	if noNorm {
 		wantPath = string(u.PathOriginal())
 		if wantPath == "" {
 			wantPath = "/"
@@ -766,7 +776,7 @@ func runURIProgram(p *uriProgram) string {
 	var u2 protocol.URI
 	u2.Parse(nil, full)
 	gotPath := string(u2.Path())
-	if p.NoNorm {
+	if noNorm {
 		gotPath = string(u2.PathOriginal())
 	}
 	if got := string(u2.Host()); got != wantHost {
@@ -810,7 +820,7 @@ func TestC17URIPrograms(t *testing.T) {
 		n := rapid.IntRange(1, 7).Draw(t, "nOps")
 		queryOps, reads := 0, 0
 		for i := 0; i < n; i++ {
-			o := uriOp{Op: rapid.SampledFrom([]string{"set-query-string", "set-query-string", "args-add", "args-del", "args-peek", "set-path", "set-hash", "set-host", "copy"}).Draw(t, "op")}
+			o := uriOp{Op: rapid.SampledFrom([]string{"set-query-string", "set-query-string", "args-add", "args-del", "args-peek", "set-path", "set-hash", "set-host", "copy", "update"}).Draw(t, "op")}
 			switch o.Op {
 			case "set-query-string":
 				o.A = rapid.SampledFrom(raws).Draw(t, "raw")
@@ -828,6 +838,10 @@ func TestC17URIPrograms(t *testing.T) {
 				} else {
 					o.A = "/" + genStr(t, "path", 12)
 				}
+			case "update":
+				// a URI reference as a Location header or a link carries it (Redirect and the client's redirect following go through Update)
+				o.A = rapid.SampledFrom([]string{"?page=2#top", "?page=2", "#top", "b?x=1#y", "/p?x=1#y", "?#", "?a=1&b=2#", "//other.example/z?k=v#h", "c"}).Draw(t, "reference")
+				queryOps++
 			case "set-hash":
 				o.A = rapid.SampledFrom([]string{"", "frag", "a?b", "a#b", "é"}).Draw(t, "hash")
 			case "set-host":
